@@ -228,30 +228,29 @@ Proof. destruct v; reflexivity. Qed.
 Lemma gmap_mem_vmap k reqs vals : gmap_mem k (vmap reqs vals) = pkg_mem k reqs.
 Proof. unfold vmap. induction reqs as [|q reqs IH]; [reflexivity|]. cbn [map gmap_mem pkg_mem]. now rewrite IH. Qed.
 
-Lemma filter_vmap_fst reqs vals (P : pkg -> bool) :
-  map fst (filter (fun kv => P (snd kv)) (vmap reqs vals)) = filter (fun q => P (vals q)) reqs.
+Lemma filter_vmap_key reqs vals (P : pkg -> bool) :
+  map fst (filter (fun kv => P (fst kv)) (vmap reqs vals)) = filter P reqs.
 Proof.
-  unfold vmap. induction reqs as [|q reqs IH]; [reflexivity|]. cbn [map filter snd]. destruct (P (vals q)); cbn [map fst]; now rewrite IH.
+  unfold vmap. induction reqs as [|q reqs IH]; [reflexivity|]. cbn [map filter fst]. destruct (P q); cbn [map fst]; now rewrite IH.
 Qed.
 
-(* one replace directive on a map whose current names agree with the original ones as far as this directive is concerned *)
+(* one replace directive: it is matched against the keys, i.e. the original requirements *)
 Lemma apply_replace_step reqs vals r : NoDup reqs ->
-  (is_nil (rr_oldv r) = true -> forall q, In q reqs -> bytes_eqb (fst (vals q)) (rr_old r) = bytes_eqb (fst q) (rr_old r)) ->
   gomod_apply_replace (vmap reqs vals) (conv_rr r) = vmap reqs (fun q => if rr_matches r q then newp r else vals q).
 Proof.
-  intros Hnd H1. unfold gomod_apply_replace, conv_rr. cbn [gr_old gr_oldv gr_new gr_newv].
+  intros Hnd. unfold gomod_apply_replace, conv_rr. cbn [gr_old gr_oldv gr_new gr_newv].
   rewrite is_nil_vpre, !trim_v_vpre. fold (newp r).
   destruct (is_nil (rr_oldv r)) eqn:Ev.
-  - specialize (H1 eq_refl). match goal with |- context [map fst (filter ?f (vmap reqs vals))] =>
-      replace (map fst (filter f (vmap reqs vals))) with (filter (fun q => bytes_eqb (fst (vals q)) (rr_old r)) reqs)
-        by (symmetry; apply (filter_vmap_fst reqs vals (fun v => bytes_eqb (fst v) (rr_old r)))) end.
+  - match goal with |- context [map fst (filter ?f (vmap reqs vals))] =>
+      replace (map fst (filter f (vmap reqs vals))) with (filter (fun q : pkg => bytes_eqb (fst q) (rr_old r)) reqs)
+        by (symmetry; apply (filter_vmap_key reqs vals (fun q => bytes_eqb (fst q) (rr_old r)))) end.
     rewrite set_targets; [|exact Hnd|intros t Ht; now apply filter_In in Ht].
     unfold vmap. apply map_ext_in. intros q Hq. unfold rr_matches. rewrite Ev. cbn [orb]. rewrite andb_true_r.
     destruct (pkg_mem q (filter _ reqs)) eqn:E.
-    + apply pkg_mem_in, filter_In in E as [_ E]. rewrite H1 in E by exact Hq. now rewrite E.
+    + apply pkg_mem_in, filter_In in E as [_ E]. now rewrite E.
     + destruct (bytes_eqb (fst q) (rr_old r)) eqn:E2; [|reflexivity]. exfalso.
-      assert (pkg_mem q (filter (fun q0 => bytes_eqb (fst (vals q0)) (rr_old r)) reqs) = true) as T
-        by (apply pkg_mem_in, filter_In; split; [exact Hq|now rewrite H1]).
+      assert (pkg_mem q (filter (fun q0 : pkg => bytes_eqb (fst q0) (rr_old r)) reqs) = true) as T
+        by (apply pkg_mem_in, filter_In; split; [exact Hq|exact E2]).
       congruence.
   - rewrite gmap_mem_vmap. destruct (pkg_mem (rr_old r, rr_oldv r) reqs) eqn:Em.
     + rewrite set_targets; [|exact Hnd|intros t [<-|[]]; now apply pkg_mem_in].
@@ -276,19 +275,10 @@ Lemma rr_matches_old r q : rr_matches r q = true -> fst q = rr_old r.
 Proof. unfold rr_matches. intros H. apply andb_true_iff in H as [H _]. now apply bytes_eqb_eq. Qed.
 
 Lemma replace_fold reqs : NoDup reqs -> forall rsl vals,
-  NoDup (map rr_old rsl) -> gomod_chain_ok rsl = true ->
-  (forall q r, In q reqs -> In r rsl -> is_nil (rr_oldv r) = true -> bytes_eqb (fst (vals q)) (rr_old r) = bytes_eqb (fst q) (rr_old r)) ->
   fold_left gomod_apply_replace (map conv_rr rsl) (vmap reqs vals) = vmap reqs (fun q => seq_apply rsl (vals q) q).
 Proof.
-  intros Hnd. induction rsl as [|r rsl IH]; intros vals Ho Hc H1; [reflexivity|].
-  inversion Ho as [|? ? Hnin Ho']; subst. cbn [gomod_chain_ok] in Hc. apply andb_true_iff in Hc as [Hc1 Hc2]. cbn [map fold_left].
-  rewrite apply_replace_step; [|exact Hnd|intros Ev q Hq; apply H1; [exact Hq|now left|exact Ev]].
-  rewrite IH; [reflexivity|exact Ho'|exact Hc2|].
-  intros q r' Hq Hr' Ev'. destruct (rr_matches r q) eqn:E.
-  - apply rr_matches_old in E. cbn [newp fst].
-    rewrite forallb_forall in Hc1. specialize (Hc1 r' Hr'). rewrite Ev' in Hc1. cbn [negb orb] in Hc1. apply negb_true_iff in Hc1. rewrite Hc1.
-    symmetry. apply bytes_eqb_neq. rewrite E. intros E2. apply Hnin. rewrite E2. now apply in_map.
-  - apply H1; [exact Hq|now right|exact Ev'].
+  intros Hnd. induction rsl as [|r rsl IH]; intros vals; [reflexivity|].
+  cbn [map fold_left]. rewrite apply_replace_step by exact Hnd. now rewrite IH.
 Qed.
 
 Lemma seq_is_find rsl q : NoDup (map rr_old rsl) -> seq_apply rsl q q = apply_replaces rsl q.
@@ -314,9 +304,9 @@ Qed.
 Lemma wf_gomod_parts rs : wf_gomod rs = true ->
   NoDup (map fst (gq_requires rs)) /\ ~ In s_stdlib (map fst (gq_requires rs)) /\
   NoDup (map rr_old (gq_replaces rs)) /\ (forall r, In r (gq_replaces rs) -> rr_new r <> s_stdlib) /\
-  NoDup (map (apply_replaces (gq_replaces rs)) (gq_requires rs)) /\ gomod_chain_ok (gq_replaces rs) = true.
+  NoDup (map (apply_replaces (gq_replaces rs)) (gq_requires rs)).
 Proof.
-  unfold wf_gomod, wf_gomod_base. intros H. apply andb_true_iff in H as [H H6]. apply andb_true_iff in H as [H H5]. apply andb_true_iff in H as [H H4].
+  unfold wf_gomod. intros H. apply andb_true_iff in H as [H H5]. apply andb_true_iff in H as [H H4].
   apply andb_true_iff in H as [H H3]. apply andb_true_iff in H as [H1 H2].
   apply nodup_bytes_NoDup in H1, H3. apply nodup_pkgs_NoDup in H5. apply negb_true_iff in H2.
   repeat split; auto.
@@ -362,14 +352,14 @@ Qed.
 Lemma gomod_struct_exact_lemma rs : wf_gomod rs = true ->
   extract_gomod (struct_of_gomod rs) = Ok (expected_gomod rs).
 Proof.
-  intros H. apply wf_gomod_parts in H as (P1 & P2 & P3 & P4 & P5 & P6).
+  intros H. apply wf_gomod_parts in H as (P1 & P2 & P3 & P4 & P5).
   pose proof (NoDup_fst_NoDup _ P1) as ND.
   rewrite extract_gomod_eq. f_equal.
   assert (gm_m1 (struct_of_gomod rs) = vmap (gq_requires rs) (apply_replaces (gq_replaces rs))) as M1.
   { unfold gm_m1. rewrite gm_m0_struct by exact ND. unfold struct_of_gomod. cbn [gm_replace].
     change (map (fun r => {| gr_old := rr_old r; gr_oldv := vpre (rr_oldv r); gr_new := rr_new r; gr_newv := vpre (rr_newv r) |}) (gq_replaces rs))
       with (map conv_rr (gq_replaces rs)).
-    rewrite replace_fold; [|exact ND|exact P3|exact P6|reflexivity].
+    rewrite replace_fold by exact ND.
     unfold vmap. apply map_ext. intros q. f_equal. now apply seq_is_find. }
   set (reqs := gq_requires rs) in *. set (rsl := gq_replaces rs) in *.
   assert (gomod_goversion (struct_of_gomod rs) = stdlib_version (gq_go rs) (gq_toolchain rs)) as GV.
@@ -539,13 +529,17 @@ Proof.
       * intros Hin. apply in_map_iff. exists (ke p). split; [reflexivity|now apply I3].
 Qed.
 
-(* outside the domain: a version-less directive whose left side is the replacement of an earlier directive is applied to
-   the already replaced entry (a => b, b => c reports c for the requirement a) *)
+(* the former known finding (chain a => b, b => c without versions) is inside the domain: the requirement a is reported as b *)
 Definition gomod_chain_witness : gomod_recs :=
   {| gq_requires := [([97], [49;46;48;46;48])];
      gq_replaces := [ {| rr_old := [97]; rr_oldv := []; rr_new := [98]; rr_newv := [49;46;49;46;48] |};
                       {| rr_old := [98]; rr_oldv := []; rr_new := [99]; rr_newv := [49;46;50;46;48] |} ];
      gq_go := []; gq_toolchain := [] |}.
-Lemma gomod_chain_refuted_lemma :
-  exists rs, wf_gomod_base rs = true /\ extract_gomod (struct_of_gomod rs) <> Ok (expected_gomod rs).
-Proof. exists gomod_chain_witness. split; [reflexivity|]. vm_compute. discriminate. Qed.
+Definition gomod_swap_witness : gomod_recs :=
+  {| gq_requires := [([97], [49;46;48;46;48]); ([98], [50;46;48;46;48])];
+     gq_replaces := [ {| rr_old := [97]; rr_oldv := []; rr_new := [98]; rr_newv := [49;46;49;46;48] |};
+                      {| rr_old := [98]; rr_oldv := []; rr_new := [97]; rr_newv := [49;46;50;46;48] |} ];
+     gq_go := []; gq_toolchain := [] |}.
+Lemma gomod_chain_in_domain_lemma :
+  wf_gomod gomod_chain_witness = true /\ expected_gomod gomod_chain_witness = [([98], [49;46;49;46;48])] /\ wf_gomod gomod_swap_witness = true /\ expected_gomod gomod_swap_witness = [([98], [49;46;49;46;48]); ([97], [49;46;50;46;48])].
+Proof. repeat split; reflexivity. Qed.
